@@ -72,5 +72,8 @@ int run_dec(int argc, char** argv);
 int run_exp(int argc, char** argv);
 int run_rd(int argc, char** argv);
 int run_tbl(int argc, char** argv);
+int run_os(int argc, char** argv);
+int run_wr(int argc, char** argv);
+std::string exp_session(const std::string& line, int line_no, const std::string& fixed_dir, bool keep_files);
 
 }  // namespace vh
